@@ -1009,9 +1009,27 @@ func c05Ordered(c *Ctx) {
 		starts := 0
 		for _, g := range calls(fn, named(egGo)) {
 			for _, a := range g.Common().Args {
-				if mc, ok := a.(*ssa.MakeClosure); ok && mc.Fn == f {
-					starts++
-					if inLoop(g.Block()) {
+				for _, w := range closuresOfValue(a) {
+					n := 0
+					if w == f {
+						n = 1
+					} else {
+						// the goroutine runs the feeder through a local function value
+						instrs(w, func(b *ssa.BasicBlock, _ int, ins ssa.Instruction) {
+							if call, ok := ins.(ssa.CallInstruction); ok && !call.Common().IsInvoke() {
+								for _, t := range closuresOfValue(call.Common().Value) {
+									if t == f {
+										n++
+										if inLoop(b) {
+											n += 10
+										}
+									}
+								}
+							}
+						})
+					}
+					starts += n
+					if n > 0 && inLoop(g.Block()) {
 						starts += 10
 					}
 				}
@@ -1112,7 +1130,7 @@ func c05StringTerminator(c *Ctx) {
 		return
 	}
 	n := 0
-	for _, r := range returnsOf(fn) {
+	for _, r := range returnsDeep(fn, 0) {
 		if len(r.Results) != 2 || !isNilConst(unspill(r, r.Results[1])) {
 			continue
 		}
